@@ -139,6 +139,7 @@ pub fn base_swarm(r: &mut Rng) -> GenCfg {
         ctor_faults: false,
         ctor_ops: r.below(6),
         quarantine: true,
+        recycle: false,
         resurrect_bias: 3,
         barrier_only_cb: 1,
         settle_after_adoption: false,
@@ -334,6 +335,18 @@ pub fn swarm(prop: &str, seed: u64) -> (GenCfg, Suffix, Shape) {
             c.max_objs = c.max_objs.min(16);
         }
         _ => {}
+    }
+    // behaviour of the memory seam (a fault kind of its own): released addresses handed out
+    // again at once. Drawn last so that the rest of the configuration does not depend on it.
+    let share = match prop {
+        "C14" | "C20" => 3,
+        "C05" | "C19" | "C17" | "C04" => 4,
+        "C01" | "C02" | "C07" | "C11" | "C18" => 8,
+        _ => 0,
+    };
+    if share > 0 && r.chance(1, share) {
+        c.recycle = true;
+        c.quarantine = false;
     }
     (c, suffix, shape)
 }
